@@ -1,5 +1,7 @@
 // ---- level unit prelude (trusted declarations) ----
 #[verifier::external_body] pub struct SmolStr { _p: u8 }
+/// `&str` views of SmolStr keys are modelled as the key itself (Borrow<str> lookup agrees with key equality)
+impl SmolStr { #[verifier::external_body] pub fn as_str(&self) -> (r: &SmolStr) ensures r == self { unimplemented!() } }
 impl Clone for SmolStr { #[verifier::external_body] fn clone(&self) -> (r: Self) ensures r == *self { unimplemented!() } }
 #[verifier::external_body] pub struct Loc { _p: u8 }
 impl Clone for Loc { #[verifier::external_body] fn clone(&self) -> (r: Self) ensures r == *self { unimplemented!() } }
@@ -15,7 +17,6 @@ impl Clone for PolicyID { #[verifier::external_body] fn clone(&self) -> (r: Self
 #[verifier::external_body] pub struct ValidationError { _p: u8 }
 #[verifier::external_body] pub struct RequestEnv<'a> { _p: &'a u8 }
 #[verifier::external_body] pub struct EntityLUB { _p: u8 }
-#[verifier::external_body] pub struct BoolType { _p: u8 }
 #[verifier::external_body] pub struct Attributes { _p: u8 }
 #[verifier::external_body] pub struct OpenTag { _p: u8 }
 pub type Integer = i64;
